@@ -65,6 +65,8 @@ def render(rects, n, m, texts, spell, para=lambda t: f'<w:p><w:r><w:t>{t}</w:t><
         for k, (i, j, h, w) in enumerate(rects):
             for a in range(i, i + h):
                 for b in range(j, j + w):
-                    g[a][b] = list(texts[k]) if (dup or (a == i and b == j)) else ['']
+                    if dup or (a == i and b == j): g[a][b] = list(texts[k])
+                    elif b == j: g[a][b] = [('own', k, a)]        # the continuation cell's own (hidden) paragraph
+                    else: g[a][b] = ['']                            # padding created for a gridSpan: always a bare empty paragraph
         return g
     return xml, expected
